@@ -22,6 +22,7 @@ fn main() {
         "C01" => sc_nested::record_c01(&mut rng, count, &mut out),
         "C02" => sc_nested::record_c02(&mut rng, count, &mut out),
         "C04" => sc_nested::record_c04(&mut rng, count, &mut out),
+        "C14" => sc_nested::record_c14(&mut rng, count, &mut out),
         s => { eprintln!("unknown record scenario {}", s); std::process::exit(2); }
       }
       out.flush();
@@ -39,6 +40,7 @@ fn main() {
         match args.pos[1].as_str() {
           "C01" => sc_nested::replay_c01(&v, &mut out, &mut stats),
           "C04" => sc_nested::replay_c04(&v, &mut out, &mut stats),
+          "C14" => sc_nested::replay_c14(&v, &mut out, &mut stats),
           s => { eprintln!("unknown replay scenario {}", s); std::process::exit(2); }
         }
       }
